@@ -16,6 +16,11 @@ NOTES={('C14','c'):'Not detected, by design: whether the arguments of a wrong-ar
        ('C16','s'):'Not detected by C16, caught by C14 (stdout-mismatch): like C16-o an evaluation-order change (the assigned value is evaluated before the target of `o.k = v`), observable only between different producers with side effects.',
        ('C14','t'):'Not detected, by design: the change moves the redeclaration check in front of the evaluation of the initialiser, so a rejected redeclaration no longer runs its initialiser. Like C14-c (arity check versus argument evaluation) the order between detecting the error and evaluating the operands of the failing statement is not pinned; the model treats a redeclaration whose initialiser has effects as out of domain.',
        ('C10','t'):'Not detected by C10, caught by C02 (coercion-inconsistent:&): whole numbers outside the 64-bit range as operands of bitwise operators are outside what C02 pins ("act on 64-bit two\'s-complement integers") and the model refuses them; the literal itself still denotes the right double, so C10 has nothing to object to.',
+       ('C10','u'):'Not detected by C10, caught by C17 (c17-value:round): the change is in the rounding built-in (floor(x + 0.5) instead of round-half-away), which C17 pins exactly; the literals involved still denote the right doubles.',
+       ('C16','v'):'Not detected by C16, caught by C14 (stdout-mismatch): arguments evaluated before the callee expression of a chained call — an evaluation-order change like C16-o and C16-s.',
+       ('C19','u'):'Not detected, by design: a trailing comma after the last property of an object literal is accepted by the implementation although the grammar has no such rule; C08 and C12 leave it open (texts whose only departure from the grammar is that comma are out of domain), so rejecting it — what this change does — is as conforming as accepting it.',
+       ('C01','u'):'Not detected, by design: the change only affects declarations with a line break between ধরি and the first name; declarations that span lines outside an array / object literal initialiser are outside the domain of C01, C08 and C18 (the implementation has an undocumented one-line rule there).',
+       ('C13','u'):'Not detected, and not detectable by running programs of the language as it is: the change adds a new built-in (a sum over an object\'s values in map order). On the unchanged tree that name is simply undefined — a deterministic error — so no workload has a reason to call it.',
        ('C13','c'):'With this change the repository\'s own flaky (non-baseline) parser test Object_Literal fails intermittently; the 157 stable tests pass.'}
 for (p,x),m in res.items():
     d=f'{V}/seeded/{p}-{x}'
@@ -25,7 +30,7 @@ for (p,x),m in res.items():
     meta['confirmed']={'applies_and_compiles':True,'repo_test_failures_with_change':int(m.group(5)),'demo_exit_without_change':int(m.group(3)),'demo_exit_with_change':int(m.group(4)),
       'how':f'tools/mutcheck.sh {p} {x} — fresh scratch worktree of /repo HEAD under /tmp, demo.sh run before and after `git apply patch.diff`, `go build ./...`, `go test -vet=off -count=1 ./...`, then ./vcheck with VERIF_REPO pointing at the worktree; worktree removed afterwards'}
     meta['checks_run']={c:{'quick_exit':int(rc),'first_signature':sig} for c,rc,sig in re.findall(r'(C\d+)=rc(\d)\[([^\]]*)\]',m.group(6))}
-    meta['source']='independent sub-agent given only the property text and a scratch worktree (round %d)'%({'a':1,'b':1,'c':2,'d':2,'e':3,'f':3,'g':4,'h':4,'i':5,'j':5,'k':6,'l':6,'m':7,'n':7,'o':8,'p':8,'q':9,'r':9,'s':10,'t':10}.get(x,0))
+    meta['source']='independent sub-agent given only the property text and a scratch worktree (round %d)'%({'a':1,'b':1,'c':2,'d':2,'e':3,'f':3,'g':4,'h':4,'i':5,'j':5,'k':6,'l':6,'m':7,'n':7,'o':8,'p':8,'q':9,'r':9,'s':10,'t':10,'u':11,'v':11}.get(x,0))
     if (p,x) in NOTES: meta['note']=NOTES[(p,x)]
     json.dump(meta,open(d+'/meta.json','w'),indent=1,ensure_ascii=False)
 rows=[]
